@@ -14,7 +14,7 @@ PROPERTY = "C05"
 META = {
     "level": "other",
     "bounds": [
-        "schemes: GaussLegendre orders 0..3 (quick) / 0..8 (thorough; dim 3 up to order 6) x dim 1..3 x permute on/off; GaussLobatto 0..5 x dim 1..3; "
+        "schemes: GaussLegendre orders 0..5 (quick; dim 3 up to order 3) / 0..8 (thorough; dim 3 up to order 6) x dim 1..3 x permute on/off; GaussLobatto 0..5 x dim 1..3 (quick: dim 3 up to order 3); "
         "Triangle 1,2,3,5; Tetrahedron 1,2,3,5; BazantOh 21; boundary variants dim 2,3",
         "the polynomial is symbolic: one coefficient variable in [-1,1] per monomial of the stated degree (linearity extends the verdict to all polynomials)",
         "tolerance per scheme from the printed precision of its table (stated per obligation); a deviation below it is not detected",
@@ -171,24 +171,28 @@ def case_permutation(ctx, order, dim):
 
 def cases(tier):
     out = []
-    gl_orders = range(0, 4) if tier == "quick" else range(0, 9)
+    gl_orders = range(0, 6) if tier == "quick" else range(0, 9)
     for o in gl_orders:
         for d in (1, 2, 3):
-            if d == 3 and o > 6:
+            if d == 3 and o > (3 if tier == "quick" else 6):
                 continue
             for p in (True, False):
                 out.append(("exactness", case_exactness, {"scheme": "GaussLegendre", "order": o, "dim": d, "permute": p}))
             if d > 1:
                 out.append(("permutation", case_permutation, {"order": o, "dim": d}))
-    for o in range(0, 4 if tier == "quick" else 6):
+    for o in range(0, 6):
         for d in (1, 2, 3):
+            if d == 3 and o > 3 and tier == "quick":
+                continue
             out.append(("exactness", case_exactness, {"scheme": "GaussLobatto", "order": o, "dim": d}))
     for o in (1, 2, 3, 5):
         out.append(("exactness", case_exactness, {"scheme": "Triangle", "order": o, "dim": 2}))
         out.append(("exactness", case_exactness, {"scheme": "Tetrahedron", "order": o, "dim": 3}))
     out.append(("exactness", case_exactness, {"scheme": "BazantOh", "order": 21, "dim": 3}))
     for s in ("GaussLegendre", "GaussLobatto"):
-        for o in (0, 1, 2, 3):
+        for o in (0, 1, 2, 3, 4, 5):
             for d in (2, 3):
+                if d == 3 and o > 3 and tier == "quick":
+                    continue
                 out.append(("boundary", case_boundary, {"scheme": s, "order": o, "dim": d}))
     return out
